@@ -295,6 +295,7 @@ SCHEMA = {
          ["type_covered", "algorithm", "labels", "original_ttl", "expiration", "inception", "key_tag", "signer", "signature"]),
     24: ("etype ealgnum i8 ttl sigtime sigtime i16 n b64",
          ["type_covered", "algorithm", "labels", "original_ttl", "expiration", "inception", "key_tag", "signer", "signature"]),
+    108: ("eui6", ["eui"]), 109: ("eui8", ["eui"]),
     16: ("txt", ["strings"]), 99: ("txt", ["strings"]), 258: ("txt", ["strings"]), 56: ("txt", ["strings"]),
     261: ("txt", ["strings"]), 262: ("txt", ["strings"]),
 }
@@ -328,6 +329,8 @@ def gen_field(rng, kind):
         return rng.choice([0, 1, 2, 23, 46, 47, 48, 59, 60, 62, 255, 256, 257, 262, 263, 32768, 32769, 65535, rng.randrange(65536)])
     if kind == "ectype":
         return rng.choice([0, 1, 2, 3, 4, 5, 6, 7, 8, 9, 252, 253, 254, 255, 65535, rng.randrange(65536)])
+    if kind in ("eui6", "eui8"):
+        return bytes(rng.choice([0, 1, 9, 10, 15, 16, 0xAB, 0xF0, 255, rng.randrange(256)]) for _ in range(int(kind[3])))
     if kind == "sigtime":
         return rng.choice(SIGTIMES) if rng.random() < 0.4 else rng.randrange(2**32)
     if kind in ("escheme", "ealg", "ealgnum"):
@@ -394,9 +397,16 @@ def schema_cases(ctx):
         sty = gen_style(rng)
         yield "rd-to-text", [40, rdtype, vals, sty]
         try:
-            text = build_rdata(rdtype, vals).to_text(style=style_obj(sty))
+            rd = build_rdata(rdtype, vals)
+            text = rd.to_text(style=style_obj(sty))
         except Exception:  # noqa
             continue
+        if rng.random() < 0.5:
+            # the same value (boundary values of every field) through the record-level oracle
+            try:
+                yield "rd-schema-value", [100, int(dns.rdataclass.IN), rdtype, rd.to_wire(), rng.randrange(2)]
+            except Exception:  # noqa
+                pass
         pc = gen_pctx(rng)
         if rng.random() < 0.5:
             # the parse context that undoes the style's relativization
